@@ -371,11 +371,11 @@ impl CelValue {
 
     pub fn neq(self, rhs: CelValue) -> CelValue {
         self.error_prop_or(rhs, |lhs, rhs| {
-            if let CelValue::Bool(res) = CelValueDyn::eq(&lhs, &rhs) {
-                return CelValue::from_bool(!res);
+            // equality of collections fails when an element comparison fails
+            match CelValueDyn::eq(&lhs, &rhs) {
+                CelValue::Bool(res) => CelValue::from_bool(!res),
+                other => other,
             }
-
-            unreachable!();
         })
     }
 
